@@ -247,6 +247,7 @@ pub fn run_job_ext(mode: &str, job: &Value) -> Option<Value> {
     Some(match mode {
         "roundtrip" => roundtrip_job(job),
         "flagcmp" => flagcmp_job(job),
+        "fmtcheck" => fmtcheck_job(job),
         "postcheck" => crate::post::postcheck_job(job),
         "pipecmp" => crate::post::pipeline_compare(
             job.get("base").and_then(|s| s.as_str()).unwrap_or(""),
@@ -255,4 +256,96 @@ pub fn run_job_ext(mode: &str, job: &Value) -> Option<Value> {
         ),
         _ => return None,
     })
+}
+
+// ---------------------------------------------------------------- C15 formatter faults
+
+fn write_to_string(b: &bindgen::Bindings) -> Result<Vec<u8>, String> {
+    let mut buf = vec![];
+    b.write(&mut buf).map_err(|e| e.to_string())?;
+    Ok(buf)
+}
+
+/// job: args (CLI args incl. header), raw_lines, formatter: "rustfmt"|"prettyplease"|"none",
+/// rustfmt_path (optional), rustfmt_config (optional).
+/// Generates twice (Formatter::None reference and the formatter under test) and compares.
+fn fmtcheck_job(job: &Value) -> Value {
+    let r = catch_unwind(AssertUnwindSafe(|| {
+        let (b0, _) = match builder_of_job(job) {
+            Ok(x) => x,
+            Err(e) => return json!({"status":"badflags","err":e}),
+        };
+        let raw_lines = strs(job.get("raw_lines"));
+        let reference = match b0.clone().formatter(bindgen::Formatter::None).generate() {
+            Ok(b) => b,
+            Err(e) => return json!({"status":"gen_err","err":e.to_string()}),
+        };
+        let none_bytes = match write_to_string(&reference) {
+            Ok(t) => t,
+            Err(e) => return json!({"status":"ref_write_err","err":e}),
+        };
+        let none_text = String::from_utf8_lossy(&none_bytes).to_string();
+        let fmt = job.get("formatter").and_then(|f| f.as_str()).unwrap_or("rustfmt");
+        let mut b = b0.formatter(fmt.parse::<bindgen::Formatter>().unwrap());
+        if let Some(p) = job.get("rustfmt_path").and_then(|p| p.as_str()) {
+            b = b.with_rustfmt(p);
+        }
+        if let Some(p) = job.get("rustfmt_config").and_then(|p| p.as_str()) {
+            b = b.rustfmt_configuration_file(Some(std::path::PathBuf::from(p)));
+        }
+        let bindings = match b.generate() {
+            Ok(b) => b,
+            Err(e) => return json!({"status":"gen_err","err":e.to_string()}),
+        };
+        let t0 = std::time::Instant::now();
+        let out = write_to_string(&bindings);
+        let write_ms = t0.elapsed().as_millis() as u64;
+        let bytes = match out {
+            Ok(b) => b,
+            Err(e) => return json!({"status":"ok","write":"err","write_err":e,"write_ms":write_ms}),
+        };
+        let valid_utf8 = std::str::from_utf8(&bytes).is_ok();
+        let text = String::from_utf8_lossy(&bytes).to_string();
+        // preamble of the reference: header comment + raw lines (+ blank line)
+        let mut pre_end = 0usize;
+        if let Some(i) = none_text.find("*/\n\n") {
+            if none_text.starts_with("/* automatically generated by rust-bindgen") {
+                pre_end = i + 4;
+            }
+        }
+        for l in &raw_lines {
+            if none_text[pre_end..].starts_with(&format!("{l}\n")) {
+                pre_end += l.len() + 1;
+            }
+        }
+        if !raw_lines.is_empty() && none_text[pre_end..].starts_with('\n') {
+            pre_end += 1;
+        }
+        let preamble = &none_text[..pre_end];
+        let preamble_ok = text.starts_with(preamble);
+        let header_count = text.matches("automatically generated by rust-bindgen").count();
+        let raw_counts: Vec<usize> = raw_lines.iter().map(|l| text.matches(l.as_str()).count()).collect();
+        let body = if preamble_ok { &text[pre_end..] } else { &text[..] };
+        let ta = inventory::flat_tokens(&none_text[pre_end..]);
+        let tb = inventory::flat_tokens(body);
+        let (tokens_equal, first_diff) = match (&ta, &tb) {
+            (Ok(a), Ok(b)) => {
+                if a == b {
+                    (true, Value::Null)
+                } else {
+                    let i = a.iter().zip(b.iter()).position(|(x, y)| x != y).unwrap_or(a.len().min(b.len()));
+                    (false, json!({"index": i, "ref": a.get(i), "got": b.get(i), "ref_len": a.len(), "got_len": b.len()}))
+                }
+            }
+            (_, Err(e)) => (false, json!({"lex_error": e})),
+            (Err(e), _) => (false, json!({"ref_lex_error": e})),
+        };
+        json!({"status":"ok","write":"ok","write_ms":write_ms,"valid_utf8":valid_utf8,"preamble_ok":preamble_ok,
+               "header_count":header_count,"raw_counts":raw_counts,"tokens_equal":tokens_equal,"first_diff":first_diff,
+               "identical_text": text == none_text, "len": text.len(), "ref_len": none_text.len()})
+    }));
+    match r {
+        Ok(v) => v,
+        Err(_) => json!({"status":"panic","panic":take_panic()}),
+    }
 }
